@@ -10,7 +10,7 @@ from ..astutil import (
 )
 from ..fresh import F, S, U, FreshAnalysis, join
 from ..index import ClassInfo, FuncInfo
-from ..report import Registry, sub
+from ..report import Registry, sub, chain
 
 R = Registry(
     "C03",
@@ -548,7 +548,7 @@ MEMO_KEYS = frozenset({"self._memoized_keys"})
 SELF_DICT = "self.__dict__"
 
 
-def _copy_function_facts(ctx, key):
+def _copy_function_facts(ctx, key, returns_mode=False):
     """Reads one shallow-copy function (`_generate` / `_clone`) without relying on local names or statement shapes.
 
     The places where the copy gets its attribute dictionary are the statements `X.__dict__ = V` and
@@ -563,13 +563,35 @@ def _copy_function_facts(ctx, key):
                  `not in KEYS` (or iterates `keys - KEYS`), or it starts empty and is filled only under the branch
                  outcome `k not in KEYS`, or a loop `for k in KEYS: D.pop(k, ...)` / `del D[k]` lies on every
                  path from the definition to the function's exit.
-    Returns (sites, fresh_problems, filter_problems)."""
+    A value produced by a same-module helper called on self (`X.__dict__ = self._state_copy()`) is judged by
+    running the same analysis on the helper with its `return` statements as the sites (one level).
+    Returns (function, sites, fresh_problems, filter_problems)."""
     from ._helpers_rob_c2 import Scope, ReachingDefs, truth, conj_atoms, _flatten_with_path
-    from ..astutil import lexical_guards
-    f = ctx.func(key)
+    from ..astutil import lexical_guards, own_exprs
+    f = ctx.func(key) if isinstance(key, str) else key
     sc = Scope(ctx, f)
     g = sc.g
-    an = FreshAnalysis(g, {p: S for p in f.params})
+    helper_memo: Dict[str, tuple] = {}
+
+    def helper_facts(call, at):
+        """facts of the helper `self.<helper>(...)` called by `call`, or None"""
+        if returns_mode or at is None or not (isinstance(call, ast.Call) and isinstance(call.func, ast.Attribute)
+                                               and sc.is_self(call.func.value, at)):
+            return None
+        tgt = sc.resolve_callee(call, at)
+        if tgt is None:
+            return None
+        if tgt.key not in helper_memo:
+            helper_memo[tgt.key] = _copy_function_facts(ctx, tgt, returns_mode=True)
+        return helper_memo[tgt.key]
+
+    def fresh_call(call, state_of):
+        hf = helper_facts(call, sc.node_of(call))
+        if hf is not None and hf[1] and not hf[2]:
+            return F
+        return None
+
+    an = FreshAnalysis(g, {p: S for p in f.params}, fresh_call=fresh_call)
 
     def is_keys(e, at):
         if isinstance(e, ast.Call) and (call_name(e) or "") in ("set", "frozenset", "tuple", "list", "sorted") and len(e.args) == 1:
@@ -604,7 +626,6 @@ def _copy_function_facts(ctx, key):
             for t in tgts:
                 if isinstance(t, ast.Attribute) and t.attr == "__dict__" and isinstance(t.value, ast.Name):
                     sites.append((nd.id, t.value.id, st.value, "store", st))
-        from ..astutil import own_exprs
         for part in own_exprs(st):
             for c in ast.walk(part):
                 if isinstance(c, ast.Call) and isinstance(c.func, ast.Attribute) and c.func.attr == "update" and len(c.args) == 1 \
@@ -612,6 +633,9 @@ def _copy_function_facts(ctx, key):
                         and isinstance(c.func.value.value, ast.Name):
                     sites.append((nd.id, c.func.value.value.id, c.args[0], "update", c))
     sites = [x for x in sites if SELF_DICT in sc.deps(x[2], x[0]) or an.state_at(x[0], x[1]) != S]
+    if returns_mode:
+        sites = [(nid, None, r.value, "return", r) for r in returns_of(f.node) if r.value is not None
+                 for nid in g.nodes_for(r)[:1]]
     fresh_bad, filter_bad = [], []
     if not sites:
         return f, sites, fresh_bad, filter_bad
@@ -621,7 +645,7 @@ def _copy_function_facts(ctx, key):
         pre = an.pre.get(nid)
         if pre is None:
             continue
-        if how == "store":
+        if how in ("store", "return"):
             st_ = an.state(v, pre)
             if st_ != F:
                 fresh_bad.append(f"`{unparse(node)[:70]}` (line {node.lineno}): the value is not a new dict on every path (state {st_})")
@@ -728,12 +752,15 @@ def _copy_function_facts(ctx, key):
             continue  # only executed when there is nothing memoised
         n_reach += 1
         names = sc.alias_names(v, nid, rd2) if isinstance(v, ast.Name) else set()
-        dict_names = set(names) | {x + ".__dict__"}
+        dict_names = set(names) | ({x + ".__dict__"} if x else set())
         leaves = sc.origins(v, nid, rd2) if isinstance(v, ast.Name) else [("expr", v, nid)]
         loops = removal_loops(dict_names)
         for kind, e, dn in leaves:
             if kind == "expr" and (filtered_expr(e, dn) or guarded_fills(e, names)):
                 continue
+            hf = helper_facts(e, dn) if kind == "expr" else None
+            if hf is not None and hf[1] and not hf[3]:
+                continue  # built by a helper all of whose returns are filtered
             w = g.must_pass([dn], [g.exit], loops, edge_ok=nonempty_edges) if loops else ["no filter"]
             if w is not None:
                 what = unparse(e)[:60] if kind == "expr" else f"{e.name} ({e.kind})"
@@ -769,8 +796,18 @@ def r2(ctx):
                 "HasMemoized.memoized_attribute / memoized_instancemethod not found")
     for fn_ in (hm.nested["memoized_attribute"].methods.get("__get__"), hm.methods["memoized_instancemethod"]):
         ctx.require(fn_ is not None, "HasMemoized.memoized_attribute.__get__ not found")
-        reg = [n for n in ast.walk(fn_.node) if isinstance(n, (ast.AugAssign, ast.Assign))
-               and any((dotted(t) or "").endswith("._memoized_keys") for t in ([n.target] if isinstance(n, ast.AugAssign) else n.targets))]
+        def registers(node, depth=0):
+            """stores into <obj>._memoized_keys, directly or through a HasMemoized method called on the object
+            (`obj._set_memoized_attribute(name, value)`)"""
+            for n in ast.walk(node):
+                if isinstance(n, (ast.AugAssign, ast.Assign)) and any(
+                        (dotted(t) or "").endswith("._memoized_keys") for t in ([n.target] if isinstance(n, ast.AugAssign) else n.targets)):
+                    return True
+                if depth < 1 and isinstance(n, ast.Call) and isinstance(n.func, ast.Attribute) and n.func.attr in hm.methods \
+                        and hm.methods[n.func.attr].node is not node and registers(hm.methods[n.func.attr].node, depth + 1):
+                    return True
+            return False
+        reg = registers(fn_.node)
         ctx.check(bool(reg), fn_.key + ":registers-key",
                   "the memoised value is stored in __dict__ without registering its name in _memoized_keys: it would be "
                   "carried over (shared) by _generate()/_clone()", "registers the key in _memoized_keys", fn_.loc)
@@ -785,20 +822,25 @@ def r2(ctx):
     outer = ctx.func("sql/base.py::_generative")
     inner = [n for n in ast.walk(outer.node) if isinstance(n, ast.FunctionDef) and n is not outer.node]
     ctx.require(inner, "_generative has no inner wrapper")
-    w = inner[0]
-    wsc = Scope(ctx, w, module=outer.module)
-    g = wsc.g
-    callables = set(outer.params) | set(wsc.params)
-    fncalls = []
-    for n in wsc.local_walk():
-        if isinstance(n, ast.Call) and isinstance(n.func, ast.Name) and n.func.id in callables and wsc.node_of(n) is not None:
-            at = wsc.node_of(n)
-            pa = wsc.param_atoms(n.func, at)
-            if pa is not None or not wsc.rd.at(at, n.func.id):
-                fncalls.append((n, at))
-    gens = [n for n in wsc.local_walk() if isinstance(n, ast.Call) and wsc.node_of(n) is not None
-            and _generate_call_of(wsc, n, wsc.node_of(n)) is not None]
-    ctx.require(gens and fncalls, "_generative wrapper: no self._generate() / fn(...) call found")
+    # the wrapper is the nested function that calls the decorated function (its own first parameter under
+    # util.decorator, or the enclosing function's parameter as a closure variable)
+    w = wsc = g = None
+    fncalls, gens = [], []
+    for cand in inner:
+        csc = Scope(ctx, cand, module=outer.module)
+        callables = set(outer.params) | set(csc.params)
+        cf = []
+        for n in csc.local_walk():
+            if isinstance(n, ast.Call) and isinstance(n.func, ast.Name) and n.func.id in callables and csc.node_of(n) is not None:
+                at = csc.node_of(n)
+                pa = csc.param_atoms(n.func, at)
+                if pa is not None or not csc.rd.at(at, n.func.id):
+                    cf.append((n, at))
+        cg = [n for n in csc.local_walk() if isinstance(n, ast.Call) and csc.node_of(n) is not None
+              and _generate_call_of(csc, n, csc.node_of(n)) is not None]
+        if cf and (w is None or (cg and not gens)):
+            w, wsc, g, fncalls, gens = cand, csc, csc.g, cf, cg
+    ctx.require(w is not None and fncalls, "_generative wrapper: no nested function calls the decorated function fn(...)")
     problems = []
     copies = set()
     for c, at in fncalls:
@@ -1108,3 +1150,39 @@ R.mutant("benign-r2-clone-key-set-difference", E, sub(
     _CLONE_OLD,
     "        skip = self._memoized_keys\n        c = self.__class__.__new__(self.__class__)\n\n        snapshot = self.__dict__.copy()\n"
     "        c.__dict__ = {k: snapshot[k] for k in snapshot.keys() - skip}\n\n        # this is a marker"), None)
+R.mutant("benign-r2-memoized-attribute-registers-through-helper", "util/langhelpers.py", sub(
+    "            obj.__dict__[self.__name__] = result = self.fget(obj)\n            obj._memoized_keys |= {self.__name__}\n",
+    "            result = self.fget(obj)\n            obj._set_memoized_attribute(self.__name__, result)\n"), None)
+R.mutant("memoized-instancemethod-does-not-register", "util/langhelpers.py", sub(
+    "            self.__dict__[fn.__name__] = memo\n            self._memoized_keys |= {fn.__name__}\n",
+    "            self.__dict__[fn.__name__] = memo\n"), "C03-R2")
+R.mutant("set-memoized-attribute-helper-does-not-register", "util/langhelpers.py", chain(
+    sub("            obj.__dict__[self.__name__] = result = self.fget(obj)\n            obj._memoized_keys |= {self.__name__}\n",
+        "            result = self.fget(obj)\n            obj._set_memoized_attribute(self.__name__, result)\n"),
+    sub("        self.__dict__[key] = value\n        self._memoized_keys |= {key}\n", "        self.__dict__[key] = value\n")), "C03-R2")
+R.mutant("benign-r2-generate-state-built-by-helper", B, sub(
+    _GEN_OLD,
+    "        cls = self.__class__\n        s = cls.__new__(cls)\n        s.__dict__ = self._state_without_memoized()\n        return s\n\n"
+    "    def _state_without_memoized(self):\n        skip = self._memoized_keys\n        state = self.__dict__.copy()\n        if not skip:\n            return state\n"
+    "        return {k: v for k, v in state.items() if k not in skip}" + _GEN_TAIL), None)
+R.mutant("generate-state-helper-returns-shared-dict", B, sub(
+    _GEN_OLD,
+    "        cls = self.__class__\n        s = cls.__new__(cls)\n        s.__dict__ = self._state_without_memoized()\n        return s\n\n"
+    "    def _state_without_memoized(self):\n        skip = self._memoized_keys\n        state = self.__dict__\n        if not skip:\n            return state\n"
+    "        return {k: v for k, v in state.items() if k not in skip}" + _GEN_TAIL), "C03-R2")
+R.mutant("generate-state-helper-does-not-filter", B, sub(
+    _GEN_OLD,
+    "        cls = self.__class__\n        s = cls.__new__(cls)\n        s.__dict__ = self._state_without_memoized()\n        return s\n\n"
+    "    def _state_without_memoized(self):\n        state = self.__dict__.copy()\n        return state" + _GEN_TAIL), "C03-R2")
+_DECW_OLD = ('    @util.decorator\n    def _generative(\n        fn: _Fn, self: _SelfGenerativeType, *args: Any, **kw: Any\n    ) -> _SelfGenerativeType:\n'
+             '        """Mark a method as generative."""\n\n' + _DEC_OLD + '\n    decorated = _generative(fn)\n')
+R.mutant("benign-r2-decorator-closure-style-wrapper", B, sub(
+    _DECW_OLD,
+    '    def _log(msg: str) -> None:\n        pass\n\n'
+    '    def _generative_wrapper(self: Any, *args: Any, **kw: Any) -> Any:\n        new = self._generate()\n        got = fn(new, *args, **kw)\n'
+    '        assert got is new, "generative methods must return self"\n        return new\n\n'
+    '    decorated = util.decorator(lambda fn_, *a, **k: _generative_wrapper(*a, **k))(fn)\n'), None)
+R.mutant("decorator-closure-style-runs-on-original", B, sub(
+    _DECW_OLD,
+    '    def _generative_wrapper(self: Any, *args: Any, **kw: Any) -> Any:\n        new = self._generate()\n        fn(self, *args, **kw)\n        return new\n\n'
+    '    decorated = util.decorator(lambda fn_, *a, **k: _generative_wrapper(*a, **k))(fn)\n'), "C03-R2")
